@@ -391,7 +391,136 @@ def extract_ids(defs, consts):
     consts["xmlNs"] = xml_ns
 
 
-EXTRACTORS = [extract_entity, extract_html_escapes, extract_ids]
+
+
+def lean_strs(xs):
+    return "[" + ", ".join(lean_str(x) for x in xs) + "]"
+
+
+def extract_xml_render(defs, consts):
+    """String literals of XmlSerializer::render_output / serialize_pretty (output/xml_serializer.rs)
+    and of the declaration / doctype writers (output/xml.rs).  A `format!` literal becomes the
+    list of its pieces between `{}` placeholders (model: `fmt pieces args`)."""
+    src = strip_comments(read("src/output/xml_serializer.rs"))
+    body = fn_body(src, "render_output", "xml render literals")
+    lits = []
+    for m in re.finditer(r'format!\(\s*"((?:\\.|[^"\\])*)"|"((?:\\.|[^"\\])*)"\s*\.to_string\(\)', body):
+        if m.group(1) is not None:
+            lits.append(("fmt", unescape(m.group(1))))
+        else:
+            lits.append(("lit", unescape(m.group(2))))
+    names = [("fmtStartTagOpen", "fmt", 1), ("litEmptyTagClose", "lit", 0), ("litTagClose", "lit", 0),
+             ("fmtEndTag", "fmt", 1), ("litEmptyEndTag", "lit", 0), ("litXmlPrefix", "lit", 0),
+             ("fmtXmlnsDefault", "fmt", 1), ("fmtXmlnsPrefix", "fmt", 2), ("fmtAttribute", "fmt", 2),
+             ("fmtComment", "fmt", 1), ("fmtPiData", "fmt", 2), ("fmtPi", "fmt", 1)]
+    if len(lits) != len(names):
+        raise ExtractError(f"xml render literals: expected {len(names)} format!/to_string literals in render_output, found {len(lits)}: {lits}")
+    for (name, kind, holes), (k, text) in zip(names, lits):
+        if k != kind or (kind == "fmt" and text.count("{}") != holes) or ("{" in text.replace("{}", "")):
+            raise ExtractError(f"xml render literals: {name}: unexpected literal {text!r}")
+        if kind == "fmt":
+            defs.append(f"def {name} : List (List Char) := {lean_strs(text.split('{}'))}\n")
+        else:
+            defs.append(f"def {name} : List Char := {lean_str(text)}\n")
+        consts[name] = text
+    body = fn_body(src, "serialize_pretty", "indentation width")
+    m = re.search(r'"((?:\\.|[^"\\])*)"\s*\.repeat\(\s*indentation\s*\*\s*(\d+)\s*\)', body)
+    nl = re.findall(r'write_all\(\s*b"((?:\\.|[^"\\])*)"\s*\)', body)
+    if not m or len(nl) != 1:
+        raise ExtractError("serialize_pretty: expected `\" \".repeat(indentation * N)` and one `write_all(b\"…\")`")
+    defs.append(f"def indentUnit : List Char := {lean_str(unescape(m.group(1)))}\n")
+    defs.append(f"def indentWidth : Nat := {int(m.group(2))}\n")
+    defs.append(f"def prettyNewline : List Char := {lean_str(unescape(nl[0]))}\n")
+    consts["indent"] = [unescape(m.group(1)), int(m.group(2)), unescape(nl[0])]
+    body = fn_body(src, "serialize_node", "token space")
+    sp = re.findall(r'write_all\(\s*b"((?:\\.|[^"\\])*)"\s*\)', body)
+    if len(sp) != 1:
+        raise ExtractError("serialize_node: expected one `write_all(b\"…\")` literal (the token space)")
+    defs.append(f"def tokenSpace : List Char := {lean_str(unescape(sp[0]))}\n")
+    consts["tokenSpace"] = unescape(sp[0])
+    # output/pretty.rs element_space: the xml:space keywords
+    psrc = strip_comments(read("src/output/pretty.rs"))
+    body = fn_body(psrc, "element_space", "spaceKeywords")
+    kw = dict((v, unescape(k)) for k, v in re.findall(r'Some\(\s*"((?:\\.|[^"\\])*)"\s*\)\s*=>\s*Space::(\w+)', body))
+    if set(kw) != {"Preserve", "Default"} or "xml_space_name" not in body:
+        raise ExtractError(f"element_space: expected arms Some(\"…\") => Space::Preserve / Space::Default on xml_space_name, found {kw}")
+    defs.append(f"def spacePreserve : List Char := {lean_str(kw['Preserve'])}\n")
+    defs.append(f"def spaceDefault : List Char := {lean_str(kw['Default'])}\n")
+    consts["spaceKeywords"] = [kw["Preserve"], kw["Default"]]
+    # output/xml.rs: the two `serialize` writers, told apart by their first literal
+    xsrc = strip_comments(read("src/output/xml.rs"))
+    bodies = []
+    for m in re.finditer(r"\bfn\s+serialize\b", xsrc):
+        bodies.append(fn_body(xsrc[m.start():], "serialize", "xml.rs writers"))
+    if len(bodies) != 2:
+        raise ExtractError(f"output/xml.rs: expected 2 `fn serialize` (Declaration, DocType), found {len(bodies)}")
+    wl = [[unescape(x) for x in re.findall(r'b"((?:\\.|[^"\\])*)"', b)] for b in bodies]
+    dnames = ["declOpen", "declEncodingOpen", "declEncodingClose", "declStandaloneOpen", "declYes", "declNo",
+              "declStandaloneClose", "declClose"]
+    tnames = ["doctypeOpen", "doctypePublicOpen", "doctypePublicSep", "doctypePublicClose", "doctypeSystemOpen",
+              "doctypeSystemClose", "doctypeClose"]
+    if len(wl[0]) != len(dnames) or not wl[0][0].startswith("<?xml"):
+        raise ExtractError(f"Declaration::serialize: unexpected literals {wl[0]}")
+    if len(wl[1]) != len(tnames) or not wl[1][0].startswith("<!DOCTYPE"):
+        raise ExtractError(f"DocType::serialize: unexpected literals {wl[1]}")
+    for n, v in list(zip(dnames, wl[0])) + list(zip(tnames, wl[1])):
+        defs.append(f"def {n} : List Char := {lean_str(v)}\n")
+    consts["xmlDeclaration"] = wl[0]
+    consts["doctype"] = wl[1]
+
+
+def extract_unpretty(defs, consts):
+    """C18: which characters `is_whitespace` accepts and the xml:space keyword of
+    `in_preserve_space` (src/unpretty.rs)."""
+    src = strip_comments(read("src/unpretty.rs"))
+    body = fn_body(src, "is_whitespace", "whitespaceChars")
+    m = re.search(r"\.chars\(\)\s*\.all\(\s*\|\s*(\w+)\s*\|(.*)\)\s*$", body, flags=re.S)
+    if not m:
+        raise ExtractError("whitespaceChars: `is_whitespace` is not of the form `text.chars().all(|c| …)`")
+    var, pred = m.group(1), m.group(2).strip()
+    mm = re.fullmatch(r"matches!\(\s*" + re.escape(var) + r"\s*,(.*)\)", pred, flags=re.S)
+    if mm:
+        alts = mm.group(1)
+        chars = [unescape(c) for c in re.findall(CHAR, alts)]
+        rest = re.sub(CHAR, "", alts)
+        if not chars or re.sub(r"[\s|]", "", rest) != "" or rest.count("|") != len(chars) - 1:
+            raise ExtractError(f"whitespaceChars: the matches! pattern `{alts.strip()}` is not an alternation of char literals")
+        if any(len(c) != 1 for c in chars):
+            raise ExtractError("whitespaceChars: a literal of the matches! pattern is not a single character")
+        unicode_ws = False
+    elif re.fullmatch(re.escape(var) + r"\s*\.\s*is_whitespace\(\s*\)", pred):
+        chars = []
+        unicode_ws = True
+    else:
+        raise ExtractError(f"whitespaceChars: predicate `{pred}` is neither a matches! of char literals nor `c.is_whitespace()`")
+    defs.append("/-- `unpretty::is_whitespace` uses `char::is_whitespace` (all of Unicode White_Space). -/\n"
+                f"def whitespaceUnicode : Bool := {'true' if unicode_ws else 'false'}\n")
+    defs.append(f"def whitespaceChars : List Char := {lean_str(''.join(chars))}\n")
+    consts["whitespaceUnicode"] = unicode_ws
+    consts["whitespaceChars"] = chars
+    # the significance test must be the negation of the same predicate
+    sig = re.sub(r"\s+", "", fn_body(src, "is_significant_text_node", "is_significant_text_node"))
+    if "!is_whitespace(text)" not in sig:
+        raise ExtractError("is_significant_text_node: expected `!is_whitespace(text)`")
+    body = fn_body(src, "in_preserve_space", "preserveKeyword")
+    lits = re.findall(r'==\s*"((?:\\.|[^"\\])*)"', body)
+    if len(lits) != 1:
+        raise ExtractError(f"preserveKeyword: expected exactly one `== \"…\"` comparison in in_preserve_space, found {len(lits)}")
+    if "xml_space_name()" not in body or not re.search(r"for\s+\w+\s+in\s+xot\.ancestors\(", body):
+        raise ExtractError("in_preserve_space: expected a walk over `xot.ancestors(node)` looking up `xml_space_name()`")
+    kw = unescape(lits[0])
+    defs.append(f"def preserveKeyword : List Char := {lean_str(kw)}\n")
+    consts["preserveKeyword"] = kw
+    # collection first, removal second
+    top = re.sub(r"\s+", "", fn_body(src, "remove_insignificant_whitespace", "remove_insignificant_whitespace"))
+    if not (top.index("xot.descendants(node)") < top.index("to_remove.push(") < top.index("xot.remove(node)")):
+        raise ExtractError("remove_insignificant_whitespace: expected collect-then-remove over xot.descendants(node)")
+
+
+
+
+# every function named extract_* is an extractor, in definition order
+EXTRACTORS = [v for k, v in list(globals().items()) if k.startswith("extract_") and callable(v)]
 
 
 def main():
